@@ -24,6 +24,46 @@ def t_range():
 	out.append(defn('INT_SIGNS', 'N', N(mask(bytes(c for c in range(256) if c not in digits and _int(bytes([c]) + b'1') in (1, -1) and _int(b'1' + bytes([c])) is None)))))
 	out.append(defn('INT_MINUS', 'N', N(mask(bytes(c for c in range(256) if c not in digits and _int(bytes([c]) + b'1') == -1)))))
 	out.append(defn('INT_UNDERSCORE', 'N', N(mask(bytes(c for c in range(256) if c not in digits and _int(b'1' + bytes([c]) + b'1') == 11)))))
+	# bytes.isdigit(): the octets the repaired Range.parse admits in a byte position (RFC 7233 2.1: 1*DIGIT)
+	out.append(defn('BYTES_ISDIGIT', 'N', N(mask(bytes(c for c in range(256) if bytes([c]).isdigit())))))
+	if b''.isdigit() or not b'0123456789'.isdigit() or b'1 2'.isdigit():
+		raise ValueError('bytes.isdigit() is no longer: non-empty and every octet a digit')
+	# variant probes (findings C20-lax-integer-syntax, C20-range-unit-not-validated)
+
+	def _element(v):
+		from httoop.exceptions import InvalidHeader
+		h = Headers()
+		h['Range'] = v
+		try:
+			return h.element('Range')
+		except InvalidHeader:
+			return None
+	# are byte positions given to int() as they are (sign accepted) or required to be digits first?
+	out.append(defn('RANGE_INT_VARIANT', 'variant', 'AsFound' if _element(b'bytes=+1-+2') is not None else 'Repaired'))
+	# is the range unit looked at?  Repaired: Range.RE_UNIT (a character class repeated, anchored at both ends: structure pinned
+	# by the pattern text) must match it, and ComposedResponse.prepare_ranges serves no other unit than 'bytes' (any case)
+	rx = getattr(Range, 'RE_UNIT', None)
+	if _element(b'=1-2') is not None:
+		out.append(defn('RANGE_UNIT_VARIANT', 'variant', 'AsFound'))
+		out.append(defn('RANGE_UNIT_PAT', 'bytes', hexlit(b'')))
+		out.append(defn('RANGE_UNIT_CHARS', 'N', N(0)))
+	else:
+		if rx is None:
+			raise ValueError("Range.parse refuses '=1-2' but there is no Range.RE_UNIT to read the unit syntax from")
+		out.append(defn('RANGE_UNIT_VARIANT', 'variant', 'Repaired'))
+		out.append(defn('RANGE_UNIT_PAT', 'bytes', hexlit(rx.pattern)))
+		cls = bytes(c for c in range(256) if rx.match(bytes([c])))
+		out.append(defn('RANGE_UNIT_CHARS', 'N', N(mask(cls))))
+		# behavioural probes of the structure, relative to the class read above: one or more class octets and nothing else
+		# (in particular no line feed after them, which a '$' instead of '\\Z' would let through)
+		inside = cls[:1] + cls[-1:]
+		outside = bytes(c for c in range(256) if c not in cls)[:1] + (b'' if 10 in cls else b'\n') + (b'' if 32 in cls else b' ')
+		probes = [(b'', False), (inside, True), (inside * 40, True), (cls, True)]
+		for x in outside:
+			probes += [(bytes([x]), False), (inside + bytes([x]), False), (bytes([x]) + inside, False), (inside[:1] + bytes([x]) + inside[1:], False)]
+		for p, want in probes:
+			if bool(rx.match(p)) != want:
+				raise ValueError('Range.RE_UNIT.match(%r) is %r, the model expects %r' % (p, bool(rx.match(p)), want))
 	# header names and their order in a composed part of multipart/byteranges
 	b = Body(b'x')
 	b.headers['Content-Type'] = 'T'
